@@ -48,6 +48,8 @@ pub static FATAL: AtomicBool = AtomicBool::new(false);
 /// set when the generous wall-clock watchdog had to end a case: whatever the oracles say afterwards is withheld (inconclusive)
 pub static CASE_TAINTED: AtomicBool = AtomicBool::new(false);
 static OUT_PATH: Mutex<Option<PathBuf>> = Mutex::new(None);
+/// scratch directories of the current case: removed when the case ends (thorough tiers run 10^5 cases)
+static SCRATCH_DIRS: Mutex<Vec<PathBuf>> = Mutex::new(Vec::new());
 
 /// The worker cannot continue (a case hangs without a certificate).  Recorded as inconclusive by the driver.
 pub fn fatal_inconclusive(why: &str) -> ! {
@@ -147,6 +149,11 @@ impl Ctx {
             self.inconclusive("wall-clock watchdog fired during this case; verdict withheld", J::obj().set("would_be", J::s(signature)));
             return;
         }
+        // children report through files in the scratch directory: without space the observations are unreliable
+        if free_mb(&self.work) < 64 {
+            self.inconclusive("scratch filesystem (almost) full; verdict withheld", J::obj().set("would_be", J::s(signature)));
+            return;
+        }
         let j = J::obj()
             .set("type", J::s("violation"))
             .set("signature", J::s(signature))
@@ -236,9 +243,17 @@ impl Ctx {
     }
 
     /// fresh scratch directory for a case (mode 0777 so that children running under another uid can write reports)
+    /// scratch directory that survives end_case() (for cases made of several launches); the caller removes it
+    pub fn scratch_keep(&mut self, tag: &str) -> PathBuf {
+        let d = self.scratch(tag);
+        SCRATCH_DIRS.lock().unwrap_or_else(|e| e.into_inner()).retain(|x| *x != d);
+        d
+    }
+
     pub fn scratch(&mut self, tag: &str) -> PathBuf {
         let d = self.work.join(format!("{}-{}-{}", tag, self.cur_family.replace('/', "_"), self.cur_index));
         let _ = std::fs::remove_dir_all(&d);
+        SCRATCH_DIRS.lock().unwrap_or_else(|e| e.into_inner()).push(d.clone());
         std::fs::create_dir_all(&d).expect("scratch");
         use std::os::unix::fs::PermissionsExt;
         let _ = std::fs::set_permissions(&d, std::fs::Permissions::from_mode(0o777));
@@ -329,6 +344,14 @@ pub fn end_case() {
     ilog::disarm();
     plan::clear();
     vclock::disable();
+    end_case_inner();
+    let dirs: Vec<PathBuf> = std::mem::take(&mut *SCRATCH_DIRS.lock().unwrap_or_else(|e| e.into_inner()));
+    for d in dirs {
+        let _ = std::fs::remove_dir_all(&d);
+    }
+}
+
+fn end_case_inner() {
     let mut tries = 0;
     loop {
         inspect::kill_descendants();
@@ -338,6 +361,20 @@ pub fn end_case() {
         }
         tries += 1;
         std::thread::sleep(std::time::Duration::from_millis(2));
+    }
+}
+
+pub fn free_mb(p: &std::path::Path) -> u64 {
+    let c = match std::ffi::CString::new(p.to_string_lossy().as_bytes()) {
+        Ok(c) => c,
+        Err(_) => return u64::MAX,
+    };
+    unsafe {
+        let mut st: libc::statvfs = std::mem::zeroed();
+        if libc::statvfs(c.as_ptr(), &mut st) != 0 {
+            return u64::MAX;
+        }
+        (st.f_bavail as u64).saturating_mul(st.f_frsize as u64) / (1 << 20)
     }
 }
 
